@@ -1,6 +1,7 @@
 import KoordVerif.Common.Proto
 import KoordVerif.Model.C20
 import KoordVerif.Model.C20Hist
+import KoordVerif.Model.C20HistQ
 /-
 Driver for C20.  A case is a history of ConfigMap events on one SLOCfg cache, with probes:
   def <s> <v> <k>*                  one flattened entry of the built-in default of section s (0..3); before any event
@@ -21,6 +22,10 @@ History harness (`hist`, Model/C20Hist.lean): one World (cache + API objects) pe
   hdel | hforeign                   ConfigMap deleted (+ Delete event) | event for a ConfigMap of another name
   hnode <op> <name> <nl> (<k> <v>)* op 0 node added, 1 node updated (new labels), 2 node deleted
   hrestart <cmFirst>                controller restart
+  hmode <0|1>                       1: from now on events only ENQUEUE (Model/C20HistQ.lean); 0: back to drain-after-every-step
+                                    (requests the model still has queued are reconciled first)
+  hrecfail <name>                   (mode 1) request <name> is reconciled but its API write fails: nothing stored, queued again
+  hrec <name>                       (mode 1) request <name> is reconciled (queued or not: spurious reconciles are allowed)
   hobs                              print every NodeSLO (`s <name> <sec> <v> <k>*`, by name) and, per node, what the cache
                                     would deliver (`g <name> same` when equal to the stored NodeSLO, else `g <name> <sec> ...`)
 -/
@@ -56,6 +61,8 @@ structure DState where
   hw : Option World := none                  -- history harness: the world
   table : List (Ident × CM) := []            -- history harness: parse (text identities ↦ sections)
   pendH : Option (Nat × Ident) := none       -- history harness: kind and ident of the event being read
+  qmode : Bool := false                      -- history harness: events only enqueue
+  hq : List Nat := []                        -- history harness: the work queue (mode 1)
 
 def DState.defaults (s : DState) : Defaults :=
   { thr := s.dThr.toList, qos := s.dQos.toList, burst := s.dBurst.toList, sys := s.dSys.toList }
@@ -111,7 +118,11 @@ def DState.parse (s : DState) : Ident → CM :=
 def DState.world (s : DState) : World := s.hw.getD (World.init s.defaults)
 
 def DState.hstep (s : DState) (st : HStep) : DState :=
-  { s with hw := some (KoordVerif.C20.hstep s.defaults s.parse s.world st), pend := none, pendH := none }
+  if s.qmode then
+    let x := qevent s.defaults s.parse { w := s.world, q := s.hq } st
+    { s with hw := some x.w, hq := x.q, pend := none, pendH := none }
+  else
+    { s with hw := some (KoordVerif.C20.hstep s.defaults s.parse s.world st), pend := none, pendH := none }
 
 def natLe (a b : Nat) : Bool := a ≤ b
 
@@ -164,6 +175,30 @@ def stepLine (s : DState) (line : String) : DState :=
       | 2 => if nl = 0 then s.hstep (.nodeDelete name) else s.bad
       | _ => s.bad
     | _, _, _, _ => s.bad
+  | ["hmode", m] =>
+    match nat? m with
+    | some 1 => if s.pend.isSome || s.cfg.isSome || s.qmode then s.bad else { s with hw := some s.world, qmode := true, hq := [] }
+    | some 0 =>
+      if s.pend.isSome || !s.qmode then s.bad else
+      -- whatever the model still has queued is reconciled now (the implementation may legitimately have enqueued less:
+      -- its changed flag compares Go structs, the model's compares flattened configs)
+      let x := qrun s.defaults s.parse { w := s.world, q := s.hq } (s.hq.map QStep.reco)
+      { s with hw := some x.w, hq := [], qmode := false }
+    | _ => s.bad
+  | ["hrec", n] =>
+    match nat? n with
+    | some n =>
+      if s.pend.isSome || !s.qmode then s.bad else
+      let x := qstep s.defaults s.parse { w := s.world, q := s.hq } (.reco n)
+      { s with hw := some x.w, hq := x.q }
+    | none => s.bad
+  | ["hrecfail", n] =>
+    match nat? n with
+    | some n =>
+      if s.pend.isSome || !s.qmode then s.bad else
+      let x := qstep s.defaults s.parse { w := s.world, q := s.hq } (.recoFail n)
+      { s with hw := some x.w, hq := x.q }
+    | none => s.bad
   | ["hobs"] =>
     if s.pend.isSome || s.cfg.isSome then s.bad else
     { s with hw := some s.world, out := s.out ++ (showWorld s.world).toArray }
